@@ -166,7 +166,7 @@ func Packet(r *RNG, t int, mask uint64, size int, dom Domain) *ref.Packet {
 			// name and level vary independently: a level of 3 or 4 under the
 			// name "MQTT" is what an older client sends
 			if r.Bool() {
-				p.ProtoName = Pick(r, "MQIsdp", "", "MQTT\x00", "mqtt")
+				p.ProtoName = Pick(r, "MQIsdp", "", "MQTT\x00", "mqtt", "MQTTv5", "MQTT-SN", "MQT", "MQTTT", "MQTTMQTT", " MQTT")
 			}
 			if r.Chance(2, 3) {
 				p.ProtoVer = Pick[byte](r, 3, 4, 0, 255, 6, 1, 2, 4, byte(r.Intn(256)))
